@@ -53,13 +53,13 @@ fn main() {
     rep.assume("H7 is process-global: runs are serialised; the context threads themselves run truly in parallel");
     #[cfg(not(varpulis_verif))]
     rep.inconclusive("built without --cfg varpulis_verif");
-    let runs = args.pick(60usize, 1500usize);
+    let runs = args.pick(200usize, 1500usize);
     let mut rng = Rng::new(args.seed ^ 0xC26);
     let mut interleavings = std::collections::BTreeSet::new();
     let mut full_queue_episodes = 0u64;
     let mut cross_events = 0u64;
     let budget = std::time::Instant::now();
-    let max_secs = args.pick(60u64, 3000u64);
+    let max_secs = args.pick(240u64, 3000u64);
     for run in 0..runs {
         if budget.elapsed().as_secs() > max_secs {
             rep.set("stopped_early_after_runs", json!(run));
